@@ -1,4 +1,4 @@
-from sched_common import SchedCheck, MODULES, HB, parse_case, parse_obs, fmt_case
+from sched_common import SchedCheck, MODULES, HB, ONLY, parse_case, parse_obs, fmt_case
 
 
 class C08(SchedCheck):
@@ -40,7 +40,7 @@ class C08(SchedCheck):
         quick = self.tier == "quick"
         streams = self.STREAMS_QUICK if quick else self.STREAMS_THOROUGH
         per = 8 if quick else 60
-        for mod in MODULES:
+        for mod in (ONLY or MODULES):
             for n in streams:
                 for k in range(per):
                     nops = r.pick([4, 8, 12, 20, 30])
@@ -52,7 +52,7 @@ class C08(SchedCheck):
     def search_cases(self):
         r = self.rng.fork()
         out = []
-        for mod in MODULES:
+        for mod in (ONLY or MODULES):
             for n in (1, 2, 4, 8):
                 for _ in range(6):
                     out.append(self.gen_history(r, mod, n, 40, vp_ops=True, maxring=32, dist_hi=5, big=True))
@@ -61,6 +61,8 @@ class C08(SchedCheck):
     # ---- the property, on the implementation's observation alone ------------
     def oracle(self, case, obs):
         mod, n, ops = parse_case(case)
+        if obs.startswith("<not run"):
+            return None
         if obs.startswith("<crash"):
             return "the scheduler crashed on this history: " + obs[:120]
         po = parse_obs(obs)
